@@ -138,6 +138,8 @@ def run_nested(case, ctx):
     call(T.to_json_like)
     steps = [("M.add_schema(T, r1)", lambda: Mo.add_schema(T, build.path_obj(r1))), ("S.add_schema(M, r2)", lambda: S.add_schema(Mo, build.path_obj(r2))),
              ("T.add_schema(U, r1)", lambda: T.add_schema(U, build.path_obj(r1)))]
+    if len(repr(case["adds"])) % 2:
+        steps = [steps[0], steps[2], steps[1]]  # T grows right after it was added to M, before anybody has looked at M
     for name, fn in steps:
         okx, e = call(fn)
         if not okx:
